@@ -11,7 +11,6 @@ from .. import units as U
 from ..symx import SymExec, ITE, WhileShift, sym_equal, make_args, Undecided, alg_equal
 from ..kernels import SPLINE_HANDLERS, S1, FEQ, h_scalar1
 from .. import agree
-from .. import ispace
 
 GEN = "general_v_parallel_advection_eval_step"
 MODES = {"fEq": "equilibrium distribution at (r, foot)", "null": "zero", "periodic": "periodic image"}
@@ -144,7 +143,9 @@ def run(chk):
            "the spline is recomputed from the current nodal values before it is evaluated at the feet" if oki else
            "the spline of f is not recomputed before evaluation", file=U.ADV, func="VParallelAdvection.step")
     # grid-level wiring (index spaces)
-    ispace.check_vparallel_gridsteps(chk)
+    from .C05 import parallel_gradient, v_parallel
+    pg_attrs, pg_summ = parallel_gradient(chk)
+    v_parallel(chk, pg_summ)
     chk.floor("F2-", 4)
     chk.floor("E2-argument-role", 12)
     chk.floor("C", 4)
